@@ -13,3 +13,6 @@ theories/Pipe/Notify.vos theories/Pipe/Notify.vok theories/Pipe/Notify.required_
 theories/Pipe/Token.vo theories/Pipe/Token.glob theories/Pipe/Token.v.beautified theories/Pipe/Token.required_vo: theories/Pipe/Token.v theories/Pipe/Model.vo theories/Pipe/Base.vo theories/Pipe/Notify.vo
 theories/Pipe/Token.vio: theories/Pipe/Token.v theories/Pipe/Model.vio theories/Pipe/Base.vio theories/Pipe/Notify.vio
 theories/Pipe/Token.vos theories/Pipe/Token.vok theories/Pipe/Token.required_vos: theories/Pipe/Token.v theories/Pipe/Model.vos theories/Pipe/Base.vos theories/Pipe/Notify.vos
+theories/Pipe/Closed.vo theories/Pipe/Closed.glob theories/Pipe/Closed.v.beautified theories/Pipe/Closed.required_vo: theories/Pipe/Closed.v theories/Pipe/Model.vo theories/Pipe/Base.vo theories/Pipe/Data.vo theories/Pipe/Notify.vo theories/Pipe/Token.vo
+theories/Pipe/Closed.vio: theories/Pipe/Closed.v theories/Pipe/Model.vio theories/Pipe/Base.vio theories/Pipe/Data.vio theories/Pipe/Notify.vio theories/Pipe/Token.vio
+theories/Pipe/Closed.vos theories/Pipe/Closed.vok theories/Pipe/Closed.required_vos: theories/Pipe/Closed.v theories/Pipe/Model.vos theories/Pipe/Base.vos theories/Pipe/Data.vos theories/Pipe/Notify.vos theories/Pipe/Token.vos
